@@ -277,4 +277,21 @@ void doc_ops(JsonDocument& d, const char* k, size_t i, JsonVariantConst vc, cons
   (void)cd.as<JsonVariantConst>();
   (void)cd.is<int>();
 }
+
+// ---- end-to-end entry points (unit api_e2e: real callees down to the allocator, native replay) -------------------------------
+bool e2e_member_is_object(JsonDocument& d, const char* k) { return d[k].is<JsonObject>(); }
+bool e2e_member_is_array(JsonDocument& d, const char* k) { return d[k].is<JsonArray>(); }
+bool e2e_member_as_array_bound(JsonDocument& d, const char* k) { return !d[k].as<JsonArray>().isNull(); }
+bool e2e_member_as_object_bound(JsonDocument& d, const char* k) { return !d[k].as<JsonObject>().isNull(); }
+bool e2e_member_as_variant_bound(JsonDocument& d, const char* k) { return !d[k].as<JsonVariant>().isUnbound(); }
+bool e2e_element_is_array(JsonDocument& d, size_t i) { return d[i].is<JsonArray>(); }
+bool e2e_element_as_variant_bound(JsonDocument& d, size_t i) { return !d[i].as<JsonVariant>().isUnbound(); }
+bool e2e_nested_is_object(JsonDocument& d, const char* k1, const char* k2) { return d[k1][k2].is<JsonObject>(); }
+int e2e_member_as_int(JsonDocument& d, const char* k) { return d[k].as<int>(); }
+bool e2e_set_variant(JsonVariant dst, JsonVariantConst src) { return dst.set(src); }
+float e2e_as_float(JsonVariantConst v) { return v.as<float>(); }
+double e2e_as_double(JsonVariantConst v) { return v.as<double>(); }
+bool e2e_array_set(JsonArray dst, JsonArrayConst src) { return dst.set(src); }
+bool e2e_array_add_variant(JsonArray a, JsonVariantConst v) { return a.add(v); }
+bool e2e_array_add_int(JsonArray a, int v) { return a.add(v); }
 }  // namespace api
